@@ -764,17 +764,45 @@ fn nodes_law<B: Be>(doc: &B) -> Result<(), String> {
     res
 }
 
+fn err_wellformed(p: &Pointer, pos: usize, off: usize) -> Result<(), String> {
+    let toks = split_enc(p.as_str());
+    if pos >= toks.len() {
+        return Err("error_position_past_last_token".to_string());
+    }
+    let want: usize = toks[..pos].iter().map(|t| 1 + t.len()).sum();
+    if off != want || p.split_at(off).is_none() {
+        return Err("error_offset_is_not_the_separator_of_its_token".to_string());
+    }
+    Ok(())
+}
+
 pub fn op_tree_hist<B: Be>(mut doc: B, steps: &[&str]) -> Option<String> {
     let steps: Vec<TStep<B>> = steps.iter().map(|s| parse_tstep::<B>(s)).collect::<Option<Vec<_>>>()?;
     let mut law_nopanic = Law::new();
     let mut law_nodes = Law::new();
     law_nodes.res(nodes_law(&doc).map_err(|e| format!("initial_{e}")));
+    // "all pointers and error values produced along the way stay well formed": an error names an existing token of
+    // the pointer and its offset is the separator introducing that token
+    let law_wf_cell = std::cell::RefCell::new(Law::new());
+    struct WfProxy<'a>(&'a std::cell::RefCell<Law>);
+    impl<'a> WfProxy<'a> {
+        fn res(&self, r: Result<(), String>) {
+            self.0.borrow_mut().res(r)
+        }
+    }
+    let law_wf = WfProxy(&law_wf_cell);
     let mut outs = Vec::with_capacity(steps.len());
     for (si, st) in steps.iter().enumerate() {
         let ret: Option<String> = match st {
             TStep::As(pt, v) => {
                 let p = Pointer::parse(pt.as_str()).ok()?;
-                guard(|| fmt_assign_r(&doc.assign(p, v.clone())))
+                guard(|| {
+                    let r = doc.assign(p, v.clone());
+                    if let Err(e) = &r {
+                        law_wf.res(err_wellformed(p, e.position(), e.offset()).map_err(|w| format!("step{si}_assign_{w}")));
+                    }
+                    fmt_assign_r(&r)
+                })
             }
             TStep::De(pt) => {
                 let p = Pointer::parse(pt.as_str()).ok()?;
@@ -784,7 +812,10 @@ pub fn op_tree_hist<B: Be>(mut doc: B, steps: &[&str]) -> Option<String> {
                 let p = Pointer::parse(pt.as_str()).ok()?;
                 guard(|| match doc.resolve(p) {
                     Ok(n) => format!("ok({})", fmt_loc_of(&doc, n as *const B)),
-                    Err(e) => format!("err({})", kind_of_resolve(&e).s()),
+                    Err(e) => {
+                        law_wf.res(err_wellformed(p, e.position(), e.offset()).map_err(|w| format!("step{si}_resolve_{w}")));
+                        format!("err({})", kind_of_resolve(&e).s())
+                    }
                 })
             }
             TStep::Wr(pt, v) => {
@@ -808,5 +839,6 @@ pub fn op_tree_hist<B: Be>(mut doc: B, steps: &[&str]) -> Option<String> {
     o.f("steps", &outs.join(";"));
     o.law("law_nopanic", &law_nopanic);
     o.law("law_nodes", &law_nodes);
+    o.law("law_wf", &law_wf_cell.borrow());
     Some(o.finish())
 }
